@@ -9,7 +9,6 @@ from harness import core, py2v
 ID = 'C34'
 TITLE = 'Time zone conversions round-trip'
 PROPS = ['Props/C34']
-DISABLED = True
 PROOF_TIMEOUT = 1500
 RULE = ('instants at -2h, -1h-1us, -1h, -1s, -1us, 0, +1us, +1s, +1h-1us, +1h, +2h around transitions (every transition of '
         'every zone in the thorough tier; all of America/New_York plus 300 random transitions in quick), random '
@@ -113,35 +112,48 @@ def coq_name(zone_name):
 
 
 class ZoneData(object):
-  """What the running code uses for one zone, as exact integers (ms), or TieBroken if it is not integral."""
+  """
+  What the running code uses for one zone, as exact integers (ms).  `problems` lists what keeps the integer model
+  from being exact for this zone (regenerate/correspond then report a broken tie; search still runs).
+  """
   def __init__(self, name, moment):
     z = moment.Zone(name)
     self.name = name
     self.zone = z
+    self.problems = []
     n = len(z.untils)
     if len(z.offsets) != n + 1:
-      raise core.TieBroken('%s: %d offsets for %d untils' % (name, len(z.offsets), n))
+      self.problems.append('%s: %d offsets for %d untils' % (name, len(z.offsets), n))
     self.untils = []
     for u in z.untils:
-      if isinstance(u, float) and (math.isinf(u) or math.isnan(u) or u != int(u)):
-        raise core.TieBroken('%s: until %r is not a whole number of ms' % (name, u))
+      if isinstance(u, float) and (math.isinf(u) or math.isnan(u)):
+        self.problems.append('%s: until %r' % (name, u))
+        continue
+      if u != int(u):
+        self.problems.append('%s: until %r is not a whole number of ms' % (name, u))
       if abs(u) >= 2 ** 41:
-        raise core.TieBroken('%s: until %r beyond 2^41 ms (float comparisons no longer exact to 1 us)' % (name, u))
+        self.problems.append('%s: until %r beyond 2^41 ms (float comparisons no longer exact to 1 us)' % (name, u))
       self.untils.append(int(u))
     self.offsets = []        # ms, positive = west (the sign convention of the data)
     for o in z.offsets:
       td = _dt.timedelta(minutes=-o)        # what Zone.offset / dt_offset return
       us = td // US
       if us % 1000:
-        raise core.TieBroken('%s: offset %r is not a whole number of ms' % (name, o))
+        self.problems.append('%s: offset %r is not a whole number of ms' % (name, o))
       self.offsets.append(-us // 1000)
     # the float expressions of the code must evaluate to exactly the integers of the model
-    for k in range(n):
+    for k in range(min(n, len(self.untils), len(self.offsets) - 1, len(z.offset_untils))):
       if z.offset_untils[k] != self.untils[k] - self.offsets[k]:
-        raise core.TieBroken('%s: offset_untils[%d] = %r, integer model has %r' % (
+        self.problems.append('%s: offset_untils[%d] = %r, integer model has %r' % (
           name, k, z.offset_untils[k], self.untils[k] - self.offsets[k]))
       if z.untils[k] - z.offsets[k + 1] * 60000 != self.untils[k] - self.offsets[k + 1]:
-        raise core.TieBroken('%s: untils[%d] - offsets[%d]*60000 is not integral' % (name, k, k + 1))
+        self.problems.append('%s: untils[%d] - offsets[%d]*60000 is not integral' % (name, k, k + 1))
+    if len(z.offset_untils) != n:
+      self.problems.append('%s: %d offset_untils for %d untils' % (name, len(z.offset_untils), n))
+
+
+def data_problems(zones):
+  return [p for z in zones for p in z.problems]
 
 
 _ZONES = {}
@@ -168,6 +180,8 @@ def regenerate(ctx):
   os.makedirs(gen, exist_ok=True)
   core.write_if_changed(os.path.join(gen, 'Moment_gen.v'), translate_code())
   zones = zone_data(reload=True)
+  if data_problems(zones):
+    raise core.TieBroken('zone data outside the exact integer model: ' + '; '.join(data_problems(zones)[:5]))
   total = sum(len(z.untils) + 8 for z in zones)
   shards = [[] for _ in range(NSHARDS)]
   acc = 0
@@ -292,6 +306,16 @@ class Raw(object):
         out.append(k)
     return out
 
+  def date_exists(self, days):
+    """Some instant renders on the local date `days` (false when the zone skipped the whole day)."""
+    lo, hi = days * 86400 * 1000000, (days + 1) * 86400 * 1000000
+    for k in range(self.n + 1):
+      a = -float('inf') if k == 0 else self.untils[k - 1] + self.east[k]
+      b = float('inf') if k == self.n else self.untils[k] + self.east[k]
+      if a < hi and lo < b and a < b:
+        return True
+    return False
+
   def gap_of(self, l_us):
     """Transition g whose gap holds the skipped local time l_us (local end of g <= l < local start of g+1)."""
     for g in range(self.n):
@@ -356,6 +380,8 @@ def oracle_date_zone(zd, days):
   if got.date() == d:
     return None
   r = raw(zd.name)
+  if not r.date_exists(days):
+    return None          # the zone skipped this whole day (date line change): no instant has this date
   mid = days * 86400 * 1000000
   e_mid = r.east[r.index(mid)]
   t_us = round(ts * 1000000)
@@ -547,7 +573,7 @@ def run_grouped(ctx, name, check, items, describe):
 def evaluate_groups(ctx):
   groups = ctx._c34['groups']
   term = lambda g, texts: '%s %s %s' % (CTOR[g[0]], coq_name(g[1].name), core.coq_list(texts))
-  bad = ctx.run_cases('all', IMPORTS, 'chk_any', [term(g, g[2]) for g in groups], shard=max(40, len(groups) // 8 + 1),
+  bad = ctx.run_cases('all', IMPORTS, 'chk_any', [term(g, g[2]) for g in groups], shard=min(300, max(40, len(groups) // 8 + 1)),
                       timeout=1800, extra_defs=EXTRA_DEFS)
   if not bad:
     return
@@ -570,8 +596,14 @@ def correspond(ctx):
   zones = zone_data()
   if len(zones) != ctx.extra.get('zones', len(zones)):
     raise core.TieBroken('zone list changed between regenerate and correspond')
+  if data_problems(zones):
+    raise core.TieBroken('zone data outside the exact integer model: ' + '; '.join(data_problems(zones)[:5]))
   trans = pick_transitions(ctx, zones)
   ctx._c34 = {'trans': trans, 'groups': []}
+  # the model and the data must be compiled even when a proof above them no longer checks
+  rc, out = core.coq_make(['theories/Model/MomentTz.vo', 'gen/Tzdata_gen.vo'], timeout=900)
+  if rc != 0:
+    raise core.TieBroken('model/data do not compile: ' + out[-1500:])
 
   # the zone objects themselves (offset_untils as the running Zone computed it)
   zsel = zones if ctx.tier == 'thorough' else [z for z in zones if z.name in FEATURED] + ctx.rng.sample(zones, 60)
